@@ -969,6 +969,9 @@ class Interp:
     def run_function(self, fn, args, kwargs):
         if self.depth > self.MAX_DEPTH:
             raise Unsupported("recursion depth")
+        ex = getattr(self.loader, "executed", None)
+        if ex is not None:
+            ex.add(fn.fullname)
         env = Env(fn.env, self.bind_args(fn, args, kwargs))
         if isinstance(fn.node, ast.Lambda):
             fr = Frame(fn, env)
